@@ -338,6 +338,25 @@ pub fn match_stmt(pat: &[PTok], s: &syn::Stmt, prefix: bool) -> Option<Binds> {
     }
 }
 
+/// does the token sequence contain (at any nesting depth) a subsequence matching `pat`?
+pub fn contains_tokens(pat: &[PTok], toks: &[TokenTree]) -> bool {
+    for i in 0..toks.len() {
+        let mut b = Binds::new();
+        if match_tokens(pat, &toks[i..], true, &mut b) {
+            return true;
+        }
+        if let TokenTree::Group(g) = &toks[i] {
+            if contains_tokens(pat, &flat(g.stream())) {
+                return true;
+            }
+        }
+    }
+    false
+}
+pub fn stmt_contains(pat: &[PTok], s: &syn::Stmt) -> bool {
+    contains_tokens(pat, &flat(s.to_token_stream()))
+}
+
 #[allow(dead_code)]
 pub fn ident(s: &str) -> Ident {
     Ident::new(s, Span::call_site())
